@@ -8,7 +8,6 @@ HERE = os.path.dirname(os.path.dirname(os.path.abspath(__file__)))
 
 NA = {
     "C01": "numerical equality of four simulators' floating-point results over all gate sequences; no structural clause is both necessary and not already decided under C14/C02 (hbar), C13 (cutoff>=1), C16 (mode order)",
-    "C10": "correctness of hand-written gradient formulas is numerical; the only structural facts (arity/name tables) are enforced by TF/JAX at first use in the existing tests",
 }
 
 CHECKS = {
@@ -52,6 +51,11 @@ CHECKS = {
         text="Decides (a) every connector method called from code reachable from a simulator exists with a binding signature on every connector class that simulator admits, (b) connector-generic code never writes in place into arrays created through connector.np except via connector.assign, whose result is always used, (c) value-inspecting _validate methods are guarded for traced values. Numerical agreement between backends is not decided.",
         note="Trusted: the resolver (module index, registry tables), python ast; third-party numpy/jax/tf signatures are not inspected.",
         ref="DESIGN 3/C09, 2/E1, 2/E3"),
+    "C10": dict(
+        cat="other", technique="numpy roll-and-weight idioms read as ladder-operator words and compared (sympy) with the differentiated normal-ordered factorisation + einsum adjoint rule (alpha-equivalence of the VJP specifications with the adjoint of the forward specification) + cotangent-order and pairing-form rules",
+        text="Decides four structural / symbolic necessary clauses for the hand-written gradient rules: (a) the gradient matrices of the single-mode displacement and squeezing operators, read from the np.roll / square-root-of-index code as sums of ladder words a^dagger^i T a^j, equal d/dr and d/dphi of the normal-ordered factorisation of D(alpha) and S(z) for all r, phi (coefficient identities decided by sympy), and the forward builders define the scalars of that factorisation; (b) the two vector-Jacobian products of each linear map y = M x of the Fock simulator (active single-mode gates, interferometer blocks) are the einsum adjoints of the forward einsum, batched and unbatched, with the non-cotangent operand conjugated; (c) every callback returns its cotangents in the order of the arguments of the function it is attached to; (d) a real parameter's cotangent is Re sum(upstream * conj(dT/dp)) in both arms of the callback. Agreement of gradient values with finite differences, the gradient recurrence of the interferometer representation, compiled execution and the native permanent VJP are NOT decided.",
+        note="Trusted: python ast; sympy; the disentangled (normal-ordered) forms of the displacement and squeezing operators and a^dagger f(n) a = n f(n-1); numpy broadcasting of a vector along the last axis. Clause-level claim only.",
+        ref="DESIGN 3/C10"),
     "C11": dict(
         cat="other", technique="randomness-provenance analysis (every draw resolved to its generator), dask-region closure analysis, parallel-loop write discipline on prange/OpenMP loops",
         text="Decides that no draw on a simulation path reads process-global RNG state, that dask and sequential arms use the same per-shot seed expression, that no callable entering a dask region draws from a generator shared between shots, that parallel loops write only loop-locals / induction-indexed elements / reductions, and that memoised results are never mutated. Different-seeds-differ and bit-level reduction order are not decided.",
@@ -123,7 +127,7 @@ ADDED = {
 }
 
 # properties whose check is built AND clean on the current tree (exit 0); others stay under not_applicable until then
-READY = ["C02", "C03", "C04", "C05", "C06", "C07", "C08", "C09", "C11", "C12", "C13", "C14", "C15", "C16", "C17", "C18", "C19", "C20"]
+READY = ["C02", "C03", "C04", "C05", "C06", "C07", "C08", "C09", "C10", "C11", "C12", "C13", "C14", "C15", "C16", "C17", "C18", "C19", "C20"]
 
 PENDING_REASON = "static check for this property is not built yet in this tree (planned, see DESIGN.md section 3)"
 
